@@ -45,6 +45,11 @@ type objT struct {
 
 type doc struct {
 	Objects []objT
+	// Style "merge": the document spells the same content with YAML anchors - the first object's properties carry an
+	// anchor, the second object's properties start with a merge key (<<: *anchor) followed by its own; the second
+	// object's Props list is the merged result (the first object's properties, then its own). Style "alias": every
+	// property body of the second object that equals one of the first is written as an alias of it.
+	Style string
 }
 
 func (d doc) yaml() string {
@@ -55,15 +60,33 @@ func (d doc) yaml() string {
 		return b.String()
 	}
 	b.WriteString("\n")
-	for _, o := range d.Objects {
+	for oi, o := range d.Objects {
 		fmt.Fprintf(&b, "        %s:\n          id: %s\n          properties:", o.Name, o.Name)
-		if len(o.Props) == 0 {
+		props := o.Props
+		if d.Style == "merge" && oi == 0 {
+			b.WriteString(" &shared")
+		}
+		if d.Style == "merge" && oi == 1 {
+			b.WriteString("\n            <<: *shared")
+			props = props[len(d.Objects[0].Props):]
+			if len(props) == 0 {
+				b.WriteString("\n")
+				continue
+			}
+		} else if len(props) == 0 {
 			b.WriteString(" {}\n")
 			continue
 		}
 		b.WriteString("\n")
-		for _, p := range o.Props {
-			fmt.Fprintf(&b, "            %s:\n              type:\n                type_id: %s\n", p.Name, p.Type)
+		for pi, p := range props {
+			if d.Style == "alias" && oi == 0 {
+				fmt.Fprintf(&b, "            %s: &body%d\n              type:\n                type_id: %s\n", p.Name, pi, p.Type)
+			} else if d.Style == "alias" && oi == 1 && pi < len(d.Objects[0].Props) && sameBody(p, d.Objects[0].Props[pi]) {
+				fmt.Fprintf(&b, "            %s: *body%d\n", p.Name, pi)
+				continue
+			} else {
+				fmt.Fprintf(&b, "            %s:\n              type:\n                type_id: %s\n", p.Name, p.Type)
+			}
 			for _, l := range p.TypeExtra {
 				fmt.Fprintf(&b, "                %s\n", l)
 			}
@@ -77,6 +100,10 @@ func (d doc) yaml() string {
 		}
 	}
 	return b.String()
+}
+
+func sameBody(a, b propT) bool {
+	return a.Type == b.Type && a.Ref == b.Ref && len(a.TypeExtra) == 0 && len(b.TypeExtra) == 0 && len(a.PropExtra) == 0 && len(b.PropExtra) == 0
 }
 
 func propVariants(names []string, other string) [][]propT {
@@ -102,11 +129,11 @@ func propVariants(names []string, other string) [][]propT {
 func docs() []doc {
 	out := []doc{{}}
 	for _, pa := range propVariants([]string{"one", "two"}, "Beta") {
-		out = append(out, doc{[]objT{{"alpha", pa}}})
+		out = append(out, doc{Objects: []objT{{"alpha", pa}}})
 	}
 	for _, pa := range propVariants([]string{"one", "two"}, "beta") {
 		for _, pb := range propVariants([]string{"uno", "dos"}, "alpha") {
-			out = append(out, doc{[]objT{{"alpha", pa}, {"beta", pb}}})
+			out = append(out, doc{Objects: []objT{{"alpha", pa}, {"beta", pb}}})
 		}
 	}
 	// full-featured property bodies: everything a schema document may say about a property besides its type id
@@ -118,7 +145,22 @@ func docs() []doc {
 		{Name: "label", Type: "string", TypeExtra: []string{"min: 1", "max: 18446744073709551615", "pattern: \"^[a-z]+$\""}, PropExtra: []string{"required_if_not: [count, ratio]", "disabled: true", "disabled_reason: not yet"}},
 		{Name: "flags", Type: "list", TypeExtra: []string{"items: {type_id: bool}", "min: 0.5", "max: 3"}},
 	}
-	out = append(out, doc{[]objT{{"alpha", rich}}}, doc{[]objT{{"alpha", rich[:2]}, {"beta", rich[2:]}}})
+	out = append(out, doc{Objects: []objT{{"alpha", rich}}}, doc{Objects: []objT{{"alpha", rich[:2]}, {"beta", rich[2:]}}})
+	// the same content spelled with YAML anchors, aliases and merge keys (what a hand-maintained schema file uses to
+	// avoid repeating common properties)
+	for _, pa := range propVariants([]string{"one", "two"}, "beta") {
+		for _, pb := range [][]propT{{}, {{Name: "uno", Type: "bool"}}, {{Name: "uno", Type: "ref", Ref: "alpha"}, {Name: "dos", Type: "float"}}} {
+			merged := append(append([]propT{}, pa...), pb...)
+			out = append(out, doc{Objects: []objT{{"alpha", pa}, {"beta", merged}}, Style: "merge"})
+		}
+		if len(pa) > 0 {
+			same := append([]propT{}, pa...)
+			for i := range same {
+				same[i].Name = []string{"uno", "dos"}[i]
+			}
+			out = append(out, doc{Objects: []objT{{"alpha", pa}, {"beta", same}}, Style: "alias"})
+		}
+	}
 	// names that are valid, distinct identifiers but compare equal or adjacent under case folding, prefixes of
 	// each other, and names with digits / underscores
 	for _, names := range [][4]string{
@@ -140,7 +182,7 @@ func docs() []doc {
 				}
 				return p
 			}
-			out = append(out, doc{[]objT{{names[0], []propT{mk(names[2]), mk(names[3])}}, {names[1], []propT{mk(names[3]), mk(names[2])}}}})
+			out = append(out, doc{Objects: []objT{{names[0], []propT{mk(names[2]), mk(names[3])}}, {names[1], []propT{mk(names[3]), mk(names[2])}}}})
 		}
 	}
 	return out
